@@ -254,6 +254,10 @@ def raw_positional(repo, rep, rule):
 
 
 def run(repo, rep, tier):
+    rep.rule("R-C05-8", "no flattening / reshaping in memory order or Fortran order (order='K' / 'A' / 'F'): the element sequence would depend on the "
+                        "in-memory layout of the input")
+    from .shared import layout_independent_flattening
+    layout_independent_flattening(repo, rep, "R-C05-8")
     rep.rule("R-C05-1", "the C routine only ever sees C-contiguous float32 arrays (who-may-call + accepted idioms)")
     rep.rule("R-C05-2", "a difference of two stored directions at constant positions goes through the circular difference")
     rep.rule("R-C05-3", "labels follow data: no positional indexing / rolling along dir on caller-ordered data, label slices only "
